@@ -335,7 +335,7 @@ def check_property(pid, tier, seed):
             continue
         violations.append(dict(m, kind="implementation != Spec (extracted Coq model)"))
     for f in stats.get("findings") or []:
-        if f["kind"] in ("relation", "hang", "alloc", "race", "kernel", "config", "mutated", "copy", "table"):
+        if f["kind"] in ("relation", "hang", "fatal", "alloc", "race", "kernel", "config", "mutated", "copy", "table"):
             violations.append({"kind": f["kind"], "fn": f.get("fn"), "case": f.get("case"), "detail": f.get("detail"),
                                "strcase": f.get("strcase"), "bytcase": f.get("bytcase")})
         elif f["kind"] == "panic" and pid == "C06":
@@ -479,10 +479,14 @@ def do_replay(path):
     case = v.get("case") or (v.get("example_disagreement") or {}).get("case")
     if case and case.split("\t")[0] in FN_KINDS:
         build_all()
-        obs = harness_replay(case)
         m = vlib.model_on([case])[0]
-        print("implementation: strcase=%s bytcase=%s | extracted Spec=%s | Go reference=%s"
-              % (obs.get("strcase"), obs.get("bytcase"), m.get("S"), obs.get("ref")))
+        try:
+            obs = harness_replay(case)
+            print("implementation: strcase=%s bytcase=%s | extracted Spec=%s | Go reference=%s"
+                  % (obs.get("strcase"), obs.get("bytcase"), m.get("S"), obs.get("ref")))
+        except Infra as e:
+            # the call does not return: the process running it died (stack overflow, fault, ...)
+            print("implementation: the process executing this call died | extracted Spec=%s\n%s" % (m.get("S"), str(e)[-1500:]))
     elif case and case.startswith("k."):
         # a kernel case: both entry points, under the GODEBUG setting the violation names (if any)
         build_all()
